@@ -14,6 +14,7 @@ import LA.Drive.Enc
 import LA.Drive.Trad
 import LA.Drive.Pass
 import LA.Drive.ZipEnc
+import LA.Drive.Unicode
 open LA
 
 def engines : List (String × Engine) := [
@@ -30,7 +31,8 @@ def engines : List (String × Engine) := [
   ("enc", LA.EncDrive.engine),
   ("trad", LA.TradDrive.engine),
   ("pass", LA.PassDrive.engine),
-  ("zipenc", LA.ZipEncDrive.engine)
+  ("zipenc", LA.ZipEncDrive.engine),
+  ("uni", LA.Unicode.engine)
 ]
 
 partial def loop (e : Engine) (h : IO.FS.Stream) (out : IO.FS.Stream) (s : e.σ) : IO Unit := do
